@@ -105,15 +105,7 @@ func genPMT(t *rapid.T, minStreams, maxStreams int) *ref.PMT {
 		} else {
 			s.StreamType = rapid.Byte().Draw(t, "stream-type-any")
 		}
-		for {
-			s.PID = int(genBits(t, 13, "es-pid"))
-			if !used[s.PID] {
-				break
-			}
-			s.PID = (s.PID + 1 + i*37) & 0x1FFF
-			if !used[s.PID] {
-				break
-			}
+		for s.PID = int(genBits(t, 13, "es-pid")); used[s.PID]; s.PID = (s.PID + 1) & 0x1FFF {
 		}
 		used[s.PID] = true
 		s.Descs = genDescriptors(t, 4, &budget)
